@@ -2,7 +2,6 @@
 Load "coq/props/Hdr".
 From Coq Require Import Permutation.
 From PM Require Import Cs Cs2 Cs4 Cs5 C04 Quals Assemble More Exec CsRef.
-Lemma src_rt : rt_ok cfg. Proof. prove_rt. Qed.
 Lemma src_cfg_ok : cfg_ok cfg. Proof. sc. Qed.
 (* every hash-map iteration order gives the same text *)
 Theorem C12_order_independent : forall m m', NoDup (map fst m) -> Permutation m m' -> cs_to_text m' = cs_to_text m.
@@ -17,7 +16,7 @@ Theorem C12_canonical_text_is_fixpoint : forall v m txt, utf8_valid v = true -> 
 Proof. apply cs_fix; sc. Qed.
 Print Assumptions C12_canonical_text_is_fixpoint.
 Theorem C12_text_has_documented_form : forall v m txt, utf8_valid v = true -> cs_try_from cfg v = Ok m -> cs_to_text m = Ok txt -> checksum_canonical txt.
-Proof. apply (checksum_text_canonical cfg src_rt); sc. Qed.
+Proof. apply (checksum_text_canonical cfg); sc. Qed.
 Print Assumptions C12_text_has_documented_form.
 Theorem C12_bytes_round_trip : forall bs, hex_decode (hex_encode bs) = Some bs.
 Proof. apply hex_decode_encode. Qed.
